@@ -88,6 +88,19 @@ func (c *packCase) filler(marker string) []byte {
 	return b
 }
 
+// packNoise gives n bytes which do not compress (a file larger than any buffer of the loader).
+func packNoise(n int) string {
+	b := make([]byte, n)
+	x := uint32(2463534242)
+	for i := range b {
+		x ^= x << 13
+		x ^= x >> 17
+		x ^= x << 5
+		b[i] = byte(x)
+	}
+	return string(b)
+}
+
 func makePackProjects(base string) ([]*packProject, error) {
 	var all256 []byte
 	for i := 0; i < 256; i++ {
@@ -98,7 +111,7 @@ func makePackProjects(base string) ([]*packProject, error) {
 		{"main.ecal": "41"},
 		{"main.ecal": "import \"lib/a.ecal\" as a\na.base + 7", "lib/a.ecal": "base := 10\n", "lib/deep/er/x.ecal": "x := 1", "empty.txt": "", "data.bin": string(all256),
 			"with space.txt": "a b", "lib/marker.txt": "text" + marker + "PK more" + marker},
-		{"main.ecal": "import \"b.ecal\" as b\nb.f(3)", "b.ecal": "func f(x) {\n    return x * 5\n}\n", "hash/####.txt": "####", "big.bin": strings.Repeat("#ECALSRC\n", 3000)},
+		{"main.ecal": "import \"b.ecal\" as b\nb.f(3)", "b.ecal": "func f(x) {\n    return x * 5\n}\n", "hash/####.txt": "####", "big.bin": strings.Repeat("#ECALSRC\n", 3000), "large/noise.bin": packNoise(150000)},
 		{"src/main.ecal": "import \"src/c.ecal\" as c\nc.v", "src/c.ecal": "v := 200\n", "z/z/z/z/z.txt": "z"},
 		{"main.ecal": "77", ".ecalsrc-entry": "78", ".hidden/.x": "h"},
 	}
